@@ -21,7 +21,7 @@ class AppointmentSchedulerDrv(Drv):
 
     def build(self, cfg):
         self.clinic = Server("clinic", concurrency=1, service_time=cfg.lat(), downstream=self.h.out)
-        self.appt = AppointmentScheduler("appointments", target=self.clinic, appointments=[1.0, 1.5, 2.0, 2.0],
+        self.appt = AppointmentScheduler("appointments", target=self.clinic, appointments=[P(1.0), P(1.5), P(2.0), P(2.0)],
                                          no_show_rate=0.5)
         return [self.clinic, self.appt]
 
@@ -109,7 +109,7 @@ class GateControllerDrv(Drv):
 
     def build(self, cfg):
         self.b = Backend("ride", cfg.L, self.h.out)
-        self.g = GateController("gate", downstream=self.b, schedule=[(1.0, 1.5), (2.0, 2.5), (1.001, 1.003)],
+        self.g = GateController("gate", downstream=self.b, schedule=[(P(1.0), P(1.5)), (P(2.0), P(2.5)), (1.001, 1.003)],
                                 initially_open=False, queue_capacity=2)
         return [self.b, self.g]
 
@@ -253,7 +253,7 @@ class RenegingQueuedResourceDrv(Drv):
     def request(self, i, op):
         ctx = {"metadata": {"i": i}}
         if op == "impatient":
-            ctx["patience_s"] = 0.25
+            ctx["patience_s"] = P(0.25)
         return [self.h.ev(self.t, "Customer", ctx)]
 
 
@@ -264,8 +264,8 @@ class ShiftedServerDrv(Drv):
     ops = ("job",)
 
     def build(self, cfg):
-        sched = ShiftSchedule([Shift(0.0, 1.001, 1), Shift(1.001, 1.003, 0), Shift(1.003, 1.5, 1),
-                               Shift(2.0, 6.0, 2)], default_capacity=0)
+        sched = ShiftSchedule([Shift(0.0, 1.001, 1), Shift(1.001, 1.003, 0), Shift(1.003, P(1.5), 1),
+                               Shift(P(2.0), P(6.0), 2)], default_capacity=0)
         self.s = ShiftedServer("shifted", schedule=sched, service_time=cfg.L, downstream=self.h.out)
         return [self.s]
 
